@@ -1518,6 +1518,30 @@ func flagExpr(v ssa.Value, field string, depth int) (isFlag, positive bool) {
 		if b, ok := constBool(cst); ok && (x.Op == token.EQL || x.Op == token.NEQ) {
 			return true, (x.Op == token.EQL) == b
 		}
+	case *ssa.Extract:
+		// closed, stack := x.closeState(): component i of a private accessor whose every return
+		// yields a flag expression there
+		cl, ok := x.Tuple.(*ssa.Call)
+		if !ok || !isBoolType(x.Type()) {
+			return false, false
+		}
+		h := cl.Call.StaticCallee()
+		if h == nil || h.Blocks == nil || h.Signature.Recv() == nil || x.Index >= h.Signature.Results().Len() {
+			return false, false
+		}
+		first := true
+		var pos bool
+		for _, r := range returnsOf(h) {
+			if x.Index >= len(r.Results) {
+				return false, false
+			}
+			f, p := flagExpr(r.Results[x.Index], field, depth+1)
+			if !f || (!first && p != pos) {
+				return false, false
+			}
+			pos, first = p, false
+		}
+		return !first, pos
 	case *ssa.Call:
 		if isLoadOfField(x) && isBoolType(x.Type()) {
 			return true, true
